@@ -197,6 +197,7 @@ pub fn store_all(app: &mut App) -> Codes {
             vault::contract::instantiate,
             vault::contract::query,
         )
+        .with_reply(vault::reply::reply)
         .with_migrate(vault::contract::migrate),
     )));
     c.vault_factory = app.store_code(Trap::new(Box::new(
